@@ -1298,7 +1298,6 @@ func c03FirstWinsReached(ctx *Ctx, r *Report) {
 	r.Floor("first-wins functions (leave when the key is recorded, record it otherwise)", 1)
 }
 
-
 // c03TemplatesReachCollector: rendering a template is not a pure function of its data in the languages whose template
 // set is given common.APIRefTemplateHelpers (apiDeclareFunction / apiDeclareMethod append to the API reference
 // collector, and overriding templates may call them). A loop over a Go map that renders a template in such a package
